@@ -22,7 +22,7 @@ RULE = ('cadences of 1-7 frames (equal or unequal tchans, gaps 0..1e4 s, absolut
         'non-trivial = >=2 frames with a non-zero start offset and a non-zero reference signal, or a fault actually injected; '
         'distinct = distinct descriptor')
 ASSUMPTIONS = ['time origin of a (sub)cadence is its own first frame',
-               'ts restoration is judged to 8 ulp(|offset| + max ts) per injection (shift/un-shift as acceptable as save/restore)',
+               'ts restoration is judged exactly ("equals what it was before"); a deviation within 8 ulp(|offset| + max ts) gets its own key',
                'only Exception subclasses are injected',
                'on a fault in frame k: frames < k hold their full signal, frames > k are untouched; frame k itself may hold either '
                '(its data are not judged), but its ts must be restored',
@@ -260,11 +260,14 @@ def _check_after(c, R, mon, expected, fault_frame=None, tag=''):
         off = pre['t_start'][k] - pre['t_start'][0]
         tol = 8 * np.spacing(abs(off) + float(np.max(np.abs(pre['ts'][k])))) * max(1, c['repeats'])
         ts_now = np.asarray(fr.ts, dtype=float)
-        ok = ts_now.shape == pre['ts'][k].shape and bool(np.all(np.abs(ts_now - pre['ts'][k]) <= tol))
+        same_shape = ts_now.shape == pre['ts'][k].shape
+        ok = same_shape and bool(np.array_equal(ts_now, pre['ts'][k]))
         R.count('ts_restore_checks')
         key = 'ts-not-restored' + ('-on-raise' if exc is not None else '')
+        if not ok and same_shape and bool(np.all(np.abs(ts_now - pre['ts'][k]) <= tol)):
+            key += ':perturbed-at-ulp-level'       # (ts + offset) - offset: equal only up to rounding
         R.check(ok, key, frame=k, offset=off, failed_at=fk, tag=tag,
-                maxdev=float(np.max(np.abs(ts_now - pre['ts'][k]))) if ts_now.shape == pre['ts'][k].shape else None)
+                maxdev=float(np.max(np.abs(ts_now - pre['ts'][k]))) if same_shape else None)
         delta = fr.data - pre['data'][k]
         if exc is not None and fk is not None and k > fk:
             R.check(not np.any(delta != 0), 'frame-after-failure-modified', frame=k, failed_at=fk, tag=tag)
